@@ -67,8 +67,19 @@ func (in *Interp) intrinsic(fn *ssa.Function, args []Value) (Value, bool) {
 			p := args[0].(*Value)
 			idx := in.timerIndex(p)
 			in.timerWaiting[idx]++
-			in.block(func() bool { return in.timerFired[idx] > 0 }, "Timer.TakeTimeout (stub) #"+strconv.Itoa(idx))
-			in.timerFired[idx]--
+			// contract of TakeTimeout: returns when the timeout is reached or Close was called
+			closed := func() bool {
+				if c, ok := in.timerField(idx, "ctx").(Iface); ok {
+					if cx, ok := c.v.(*Ctx); ok {
+						return cx.isCancelled()
+					}
+				}
+				return false
+			}
+			in.block(func() bool { return in.timerFired[idx] > 0 || closed() }, "Timer.TakeTimeout (stub) #"+strconv.Itoa(idx))
+			if in.timerFired[idx] > 0 {
+				in.timerFired[idx]--
+			}
 			in.timerWaiting[idx]--
 			return nil, true
 		}
